@@ -20,5 +20,6 @@ OrigInvs ==
     /\ Orig!DynamicInsidePool /\ Orig!ReservedClientGetsReservation /\ Orig!OfferWhenFree
     /\ Orig!DiskEqualsMemoryEachOnce /\ Orig!RestartRestoresSameTable /\ Orig!HostsUnique
     /\ Orig!RemBounded /\ Orig!NoReuseBeforeAnnouncedExpiry /\ Orig!BoundedStatics
+    /\ Orig!RemoveKeepsHeldDynamic
 StaticsStableP == [][ProtocolNext => StaticsStable]_vars
 =============================================================================
